@@ -57,7 +57,9 @@ func (r RouteSpec) targets(i int) []string {
 	return []string{"pull"}
 }
 
-func q(s string) string { return `"` + strings.ReplaceAll(strings.ReplaceAll(s, `\`, `\\`), `"`, `\"`) + `"` }
+func q(s string) string {
+	return `"` + strings.ReplaceAll(strings.ReplaceAll(s, `\`, `\\`), `"`, `\"`) + `"`
+}
 
 func c10Text(routes []RouteSpec) string {
 	var b strings.Builder
